@@ -87,7 +87,7 @@ func (p *c02) Rule() string {
 func (p *c02) nStatic(ctx core.Ctx) int { return ctx.Pick(30000, 500000) }
 
 var c02Vals = []TV{
-	tvS("plain"), tvS("a<b>&c\"d'e"), tvS("&lt;"), tvS("&amp;amp;"), tvS("x;y&z;"), tvS("{{ not }}"), tvS("  padded  "), tvS("multi\nline"), tvS("cr\rin\r\nvalue"), tvS("é中\U0001F600"),
+	tvS("plain"), tvS(""), tvS("a<b>&c\"d'e"), tvS("&lt;"), tvS("&amp;amp;"), tvS("x;y&z;"), tvS("{{ not }}"), tvS("  padded  "), tvS("multi\nline"), tvS("cr\rin\r\nvalue"), tvS("é中\U0001F600"),
 	tvI(0), tvI(-42), {K: "int8", I: -8}, {K: "int16", I: 300}, {K: "int32", I: 1 << 20}, {K: "int64", I: 1 << 40}, {K: "uint", U: 7}, {K: "uint8", U: 200}, {K: "uint16", U: 65535}, {K: "uint32", U: 1 << 31}, {K: "uint64", U: 1 << 63},
 	tvF(1.5), tvF(1e21), tvF(-0.000001), {K: "float32", F: 0.25}, tvB(true), tvB(false),
 	tvList(tvI(1), tvS("<b>"), tvB(true)), tvKind("[]string", tvS("a&b"), tvS("c")), tvKind("[]int", tvI(1), tvI(2)), tvMap(map[string]TV{"k": tvS("<v>")}), {K: "map[string]string", M: map[string]TV{"a": tvS("1")}},
@@ -634,6 +634,25 @@ func (p *c02) execValue(o *core.Obs, c c02Case) {
 	if got != want {
 		o.Fail(c, sig+"/not-equal", "parsed sink value %q != neighbours + fmt.Sprint(value) %q (value %s)\noutput: %s", got, want, c.Val, out)
 	}
+	if sink == "text" {
+		// the value alone between two elements (no character between the tags and the braces): whatever it
+		// prints, nothing - the static siblings after it stay
+		o.Evals++
+		out2, err2 := renderStr(`<section><div data-x="1"><b>L</b>{{ v }}<i>R</i> tail</div><p data-y="1">{{ v }}<u>U</u></p></section>`, map[string]any{"v": val})
+		if err2 != nil {
+			o.Fail(c, sig+"/between-elements/error", "render failed: %v", err2)
+		} else {
+			d2 := oracle.Parse(out2, false)
+			x, y := d2.ByAttr("data-x", "1"), d2.ByAttr("data-y", "1")
+			form := fmt.Sprint(val)
+			if val == nil {
+				form = ""
+			}
+			if len(x) != 1 || len(y) != 1 || c02NoWS(x[0].InnerText()) != c02NoWS("L"+form+"R tail") || c02NoWS(y[0].InnerText()) != c02NoWS(form+"U") {
+				o.Fail(c, sig+"/between-elements/siblings-lost-or-text-wrong", "value %s alone between elements: want the texts %q and %q\noutput: %s", c.Val, "L"+form+"R tail", form+"U", out2)
+			}
+		}
+	}
 	// the static neighbours of the sink must have survived as well
 	if b := doc.ByAttr("data-before", "1"); len(b) != 1 || b[0].InnerText() != "before <b> &amp;" {
 		o.Fail(c, sig+"/static-neighbour", "static sibling with character references changed\noutput: %s", out)
@@ -676,3 +695,5 @@ func (p *c02) execVHTML(o *core.Obs, c c02Case) {
 		o.Fail(c, "vhtml/"+c.Wrap+"/not-verbatim/"+cls, "v-html output does not contain its value verbatim\nvalue: %q\noutput: %s", c.HTML, out)
 	}
 }
+
+func c02NoWS(s string) string { return strings.Join(strings.Fields(s), "") }
